@@ -724,6 +724,8 @@ def main():
                 done += 1
                 if o.status != 'discharged':
                     log('[%d/%d] %s %s %.1fs %s %s' % (done, len(obls), o.status, o.oid, o.wall, ','.join(o.labels[:6]), o.detail[:200]))
+                elif os.environ.get('VERIF_VERBOSE'):
+                    log('[%d/%d] discharged %s %.1fs' % (done, len(obls), o.oid, o.wall))
                 elif done % 50 == 0:
                     log('[%d/%d] ...' % (done, len(obls)))
         # classify failures
